@@ -55,6 +55,12 @@ def patch(module, name, value):
     module.__dict__[name] = value
 
 
+def patch_item(d, key, value):
+    """rebind a dict entry (e.g. an operator table), remembering the old one"""
+    _PATCHES.append((d, key, ('item', d.get(key, _MISSING))))
+    d[key] = value
+
+
 def patch_attr(obj, name, value):
     _PATCHES.append((obj, name, ('attr', getattr(obj, name, _MISSING))))
     setattr(obj, name, value)
@@ -63,7 +69,12 @@ def patch_attr(obj, name, value):
 def reset_all():
     while _PATCHES:
         m, name, old = _PATCHES.pop()
-        if isinstance(old, tuple) and old and old[0] == 'attr':
+        if isinstance(old, tuple) and old and old[0] == 'item':
+            if old[1] is _MISSING:
+                m.pop(name, None)
+            else:
+                m[name] = old[1]
+        elif isinstance(old, tuple) and old and old[0] == 'attr':
             if old[1] is _MISSING:
                 try:
                     delattr(m, name)
